@@ -11,6 +11,7 @@ import Mashu.Quote
 import Mashu.Discr
 import Mashu.DiscrF
 import Mashu.PackF
+import Mashu.DispatchCall
 import Mashu.Cache
 import Mashu.Lazy
 import Mashu.Share
@@ -491,6 +492,22 @@ def dispatch (j : Json) : Except String Json := do
   | "hooks" => dispatchHooks j
   | "namespace" | "cleanid" => dispatchNamespace op j
   | "schema" => dispatchSchema j
+  | "dispatchcall" => do
+      let behs ← (← arr (j.getObjValD "beh")).toList.mapM (fun b => match b with
+        | .str "returns" => pure DispatchCall.Beh.returns
+        | .str "key" => pure (DispatchCall.Beh.raises .key)
+        | .str "attr" => pure (DispatchCall.Beh.raises .attr)
+        | .str "other" => pure (DispatchCall.Beh.raises .other)
+        | _ => throw "bad beh")
+      let beh (k : Nat) : DispatchCall.Beh := (behs[k]?).getD (behs.getLastD .returns)
+      let o := DispatchCall.dispatch (getB j "lookup_only" Generated.dispatchGuardsLookupOnly) (getB j "registered" false) (getB j "exists" true) beh
+      let res : String := match o.result with
+        | .value => "value"
+        | .raised .key => "raised:key"
+        | .raised .attr => "raised:attr"
+        | .raised .other => "raised:other"
+        | .notFound => "notfound"
+      pure (Json.mkObj [("invocations", Json.num (JsonNumber.fromNat o.invocations)), ("result", Json.str res)])
   | "packf" => do
       let nat (x : Json) : Except String Nat := match x with
         | .num n => pure n.mantissa.toNat
